@@ -17,7 +17,7 @@ from ..gen import BASE_US, gen_query
 from ..model import MPoint
 
 SHARDS = {"quick": 4, "thorough": 16}
-TIMEOUT = {"quick": 600, "thorough": 3000}
+TIMEOUT = {"quick": 1800, "thorough": 7200}
 
 T0 = BASE_US
 I = int(re.I)
